@@ -39,13 +39,13 @@ CLAIMS["C05"] = {
     "technique": T,
 }
 CLAIMS["C06"] = {
-    "text": "Stream.tla composes an io.Reader that cuts the input into arbitrary Read results (incl. data together with EOF), bufio.Reader's fill/ReadByte with its pending error, the byte machine of fasta.read() and the iterator layers; TLC explores every schedule of every input <= 4 (thorough 5) bytes and checks SchedFree (items = denotation, whatever the schedule). Sessions recorded from all six readers (FASTA, FASTQ, SAM Reader and ReaderHeader, BED, Newick) on well-formed inputs (incl. two larger than bufio's buffer), mutated and random inputs under 13 read schedules, CRLF conversion, File on a plain and a gzip file and on an unopenable path are judged by Trace_Cross against the in-memory reference run.",
+    "text": "Stream.tla composes an io.Reader that cuts the input into arbitrary Read results (incl. data together with EOF), bufio.Reader's fill/ReadByte with its pending error, the byte machine of fasta.read() and the iterator layers; TLC explores every schedule of every input <= 5 (thorough 7) bytes and checks SchedFree (items = denotation, whatever the schedule). StreamLines.tla does the same for the buffer-level models of bufio.Scanner (composed with the FASTQ four-line machine) and bufio.ReadString (SAM, BED), inputs <= 5 (thorough 8 / 7) bytes. Sessions recorded from all six readers (FASTA, FASTQ, SAM Reader and ReaderHeader, BED, Newick) on well-formed inputs (incl. two larger than bufio's buffer), mutated and random inputs under 13 read schedules, CRLF conversion, File on a plain and a gzip file and on an unopenable path are judged by Trace_Cross against the in-memory reference run.",
     "ref": "DESIGN.md section 6 C06",
     "note": "Trusted: TLC, gzip/aio (exercised), interning of items (injective projection). The clause 'well-formed input decodes to its denotation' is discharged per format in C01-C05.",
     "technique": T,
 }
 CLAIMS["C07"] = {
-    "text": "Stream.tla: TLC explores the byte-level FASTA reader over every read schedule x every fault offset x {once, forever} for all inputs <= 4 (5) bytes and checks FaultOK (only leading records of the fault-free decode, then exactly one error, last); a variant that hands out the partial record is refuted. MC_Fault: the error paths of the FASTQ (Scanner), SAM and BED (ReadString) and Newick (ReadByte) readers, as functions of the delivered prefix, satisfy FaultOK for every offset of every input of small well-formed corpora; the unrepaired SAM behaviour is refuted. Real runs: every reader x well-formed inputs (<= 400 bytes, thorough 5000) x every byte offset x {once, forever} x {1-byte, 4096-byte reads} with a consumer that never stops (unbounded iteration detected by a cap), and every format's Write x every offset at which the destination starts failing, judged by Trace_Cross.",
+    "text": "Stream.tla: TLC explores the byte-level FASTA reader over every read schedule x every fault offset x {once, forever} for all inputs <= 5 (7) bytes and checks FaultOK (only leading records of the fault-free decode, then exactly one error, last); a variant that hands out the partial record is refuted. StreamLines.tla: buffer-level models of bufio.Scanner and ReadString under every schedule and fault deliver exactly what MC_Fault assumes (LemmaScanner, LemmaReadString), and the FASTQ reader on top satisfies FaultOK (a reader without the length check is refuted: the partial last token becomes a record). MC_Fault: the error paths of the FASTQ (Scanner), SAM and BED (ReadString) and Newick (ReadByte) readers, as functions of the delivered prefix, satisfy FaultOK for every offset of every input of small well-formed corpora; the unrepaired SAM behaviour is refuted. Real runs: every reader x well-formed inputs (<= 400 bytes, thorough 5000) x every byte offset x {once, forever} x {1-byte, 4096-byte reads} with a consumer that never stops (unbounded iteration detected by a cap), and every format's Write x every offset at which the destination starts failing, judged by Trace_Cross.",
     "ref": "DESIGN.md section 6 C07",
     "note": "Trusted: TLC; the stdlib semantics written down in MC_Fault are assumptions exercised by every real run.",
     "technique": T,
